@@ -446,7 +446,7 @@ impl Engine for MultiEngine {
                 5 => ops.push(MultiOp::Ignore { a }),
                 6 => ops.push(MultiOp::RDisconnect { a }),
                 7 => {
-                    ops.push(MultiOp::Send { a, vital: s.chance(2, 3), len: *s.pick(&[0u16, 1, 8, 40, 300, 1000]), tag });
+                    ops.push(MultiOp::Send { a, vital: s.chance(2, 3), len: *s.pick(&[0u16, 1, 8, 40, 300, 1000, 1023, 1024, 1390, 1391, 3000]), tag });
                     if s.chance(3, 4) {
                         ops.push(MultiOp::Flush { a });
                     }
@@ -460,7 +460,7 @@ impl Engine for MultiEngine {
                 }
                 12 => ops.push(MultiOp::SendErr { a, n: 1 + s.below(2) as u8 }),
                 13 => {
-                    ops.push(MultiOp::RSend { a, vital: s.chance(2, 3), len: *s.pick(&[0u16, 1, 8, 40, 300, 1000]), tag });
+                    ops.push(MultiOp::RSend { a, vital: s.chance(2, 3), len: *s.pick(&[0u16, 1, 8, 40, 300, 1000, 1023, 1024, 1390, 1391, 3000]), tag });
                     ops.push(MultiOp::RFlush { a });
                     ops.push(MultiOp::Deliver { a, dir: 0, pick: pk(&mut s) });
                 }
